@@ -28,6 +28,8 @@ EXPLANATION = (
 
 
 def run(ctx: Ctx) -> None:
+    from ..rules import solvers as _slvf
+    _slvf.rule_frontinsert_owner(ctx)
     from .c02 import rule_index_space
     rule_index_space(ctx)   # the deterministic solver behind this property: emitter register numbers vs tableau positions
     from ..rules import order as _order_seq
